@@ -30,7 +30,10 @@ def run(ctx):
     for it in range(n):
         mode = it % 4
         if mode == 0:
-            va, vb = impl.leaf_family(ctx, 2, pinv=0.3)
+            if it % 8 == 0:
+                (va, vb), unit = impl.scaled_family(ctx, 2, pinv=0.3)
+            else:
+                va, vb = impl.leaf_family(ctx, 2, pinv=0.3)
         elif mode == 1:   # arbitrary position on a coarse grid: shared vertices, parallel and collinear edges happen
             va = shapes.ccw(gen.star_polygon(rng, rng.randint(3, 6), 4, 0, 0, den=1))
             vb = shapes.ccw(gen.star_polygon(rng, rng.randint(3, 6), 4, rng.randint(-2, 2), rng.randint(-2, 2), den=1))
@@ -75,11 +78,15 @@ def run(ctx):
     corpus = [("circle-square", Primitive.circle(radius=1), Primitive.square(side=F(3, 2)), 8),
               ("circle-circle", Primitive.circle(radius=1), Primitive.circle(radius=1, center=(1, F(1, 5))), 2),
               ("circle-triangle", Primitive.circle(radius=2, center=(F(1, 3), F(1, 7))), Primitive.polygon([(-4, -1), (4, F(-1, 2)), (F(1, 5), 5)]), 2),
-              ("circle-smallsquare", Primitive.circle(radius=3), Primitive.square(side=1, center=(3, F(1, 9))), 2)]
+              ("circle-smallsquare", Primitive.circle(radius=3), Primitive.square(side=1, center=(3, F(1, 9))), 2),
+              ("circle-circle-close", Primitive.circle(radius=1.0), Primitive.circle(radius=1.0, center=(0.3, 0.0)), 2)]
     for name, SA, SB, expected in corpus:
         A, B = SA.jordans[0], SB.jordans[0]
-        got = A.intersection(B, equal_beziers=False, end_points=True)
+        full = A.intersection(B)
         ctx.case("curved-intersection", name)
+        spurious = [t for t in full if t[2] is None and not (A.segments[t[0]] == B.segments[t[1]])]
+        ctx.check(not spurious, "(None, None) reported for segments that are not identical", {"pair": name}, [], spurious[:4])
+        got = A.intersection(B, equal_beziers=False, end_points=True)
         bad = []
         for (a, b, u, v) in got:
             pa, pb = A.segments[a](u), B.segments[b](v)
